@@ -9,9 +9,14 @@
     commands), hence all classified datasets, and all finite positive steps.
     [rise_rows t] / [recession_rows t] = Ok (start epochs written to the offsets
     table, triples (start_epoch, zeta_number, mean crossing) written to the
-    crossing table). *)
+    crossing table).
+    Last section: the views average_rising_depth / average_recession_time
+    (Model/Views.v, Proofs/ViewsSpec.v, Proofs/ViewsCommandSpec.v), which INNER
+    JOIN the crossing table with discrete_zeta, show EVERY stored level for the
+    model of the commands (C13_view_shows_every_stored_level). *)
 From Spowtd Require Import Model.Curves Proofs.RegridSpec Proofs.RegridFloatSpec
-  Proofs.CurvesSpec Proofs.ZetaGridSpec Proofs.CurvesGridSpec.
+  Proofs.CurvesSpec Proofs.ZetaGridSpec Proofs.CurvesGridSpec
+  Generated.ZetaGridGen Proofs.ZetaGridGenSpec.
 
 (** Rise curve: each row's interval is paired with a storm (the pairing, the
     storm and the interval all exist); its value is the mean of the crossings of
@@ -143,6 +148,22 @@ Theorem C13_grid_covers : forall zetas step qs g,
 Proof. exact grid_covers. Qed.
 Print Assumptions C13_grid_covers.
 
+(** Tie to the code by TRANSLATION (in addition to the correspondence check):
+    the two bounds of range(...) in zeta_grid.populate_zeta_grid are regenerated
+    from the Python source on every run (harness/translate.py, fail closed) as
+    [gen_grid_lo] / [gen_grid_hi], functions of the exact values of the binary64
+    quotients min/step and max/step; they are floor and ceiling, i.e. the model
+    [grid_of_bounds] is what the translated code computes.  (An int() truncation,
+    a floor division or an off-by-one in the source makes this theorem fail.) *)
+Theorem C13_translated_grid_bounds : forall zmin zmax step : PrimFloat.float,
+  grid_of_bounds zmin zmax step =
+  match float_to_Q (PrimFloat.div zmin step), float_to_Q (PrimFloat.div zmax step) with
+  | Some lo, Some hi => Ok (zrange (gen_grid_lo lo hi) (gen_grid_hi lo hi))
+  | _, _ => Err EOther
+  end.
+Proof. exact generated_grid_is_model. Qed.
+Print Assumptions C13_translated_grid_bounds.
+
 (** Non-vacuity.  Two storms, each followed by a recession; both rises cross
     levels 1 and 2 (step 1); both recessions cross level 1; level 2 is crossed by
     the second recession only (the first starts exactly on it: upper value
@@ -194,3 +215,89 @@ Example C13_negative_step_counterexample :
   /\ (match regrid [0; 1] [1%float; 0x1.8p+1%float] (-1)%float with
       | Ok items => map fst items | Err _ => [] end) = [-2; -3]%Z.
 Proof. vm_compute. split; reflexivity. Qed.
+
+(** ** The views through which the curves are read (Model/Views.v)
+
+    The user, plotting and the PEST files read the master curve from the views
+    average_rising_depth / average_recession_time, which INNER JOIN the crossing
+    table with discrete_zeta: a stored level that is not a grid level would
+    silently vanish from the curve.  For the model of the commands it cannot:
+    [offsets] is the offsets table (one row per interval of [ivs], any values),
+    [view_levels] the level numbers of the view's rows in the view's order,
+    [view_average] its rows (level * step, AVG(offset + crossing)).  The view
+    lists EVERY level of the crossing table, in ascending order, each with the
+    level mean of Model/FitOffsets.v; in particular its last row is the highest
+    level of the assembled curve. *)
+From Spowtd Require Import Model.Views Proofs.ViewsSpec Proofs.ViewsCommandSpec.
+
+Theorem C13_view_shows_every_stored_level : forall t ivs rows step qs g,
+  (rise_rows t = Ok (ivs, rows) \/ recession_rows t = Ok (ivs, rows)) ->
+  t_grid t = Some step -> float_to_Q step = Some qs -> 0 < qs ->
+  populate_zeta_grid (map snd (water_levels t)) step = Ok g ->
+  forall offsets : list (Z * Q),
+  (forall e, In e ivs <-> In e (map fst offsets)) ->
+  NoDup g /\
+  view_levels offsets rows g = group_keys (map (fun r => snd (fst r)) rows) /\
+  (forall e k m, In (e, k, m) rows ->
+     In (inject_Z k * qs, head_mean (aligned_entries offsets rows) (offset_of offsets) k)
+        (view_average offsets rows g qs)) /\
+  (forall e k m, In (e, k, m) rows -> (k <= last (view_levels offsets rows g) 0)%Z).
+Proof. exact view_shows_every_stored_level. Qed.
+Print Assumptions C13_view_shows_every_stored_level.
+
+(** The same at table level, for any tables: the view lists level k iff k is a
+    grid level and an interval with an offset row has a crossing row there; if
+    every such level is a grid level, none is dropped. *)
+Theorem C13_view_complete_when_levels_in_grid : forall offsets crossings grid,
+  (forall e o k v, In (e, o) offsets -> In (e, k, v) crossings -> In k grid) ->
+  view_levels offsets crossings grid = curve_levels offsets crossings.
+Proof. exact view_complete. Qed.
+Print Assumptions C13_view_complete_when_levels_in_grid.
+
+(** Non-vacuity: the tables of [ex_tables] (rises crossing levels 1 and 2, the
+    top level is positive), offsets 0 and 1/2: the view over the grid computed
+    by the model of set-zeta-grid, [0; 1; 2], shows both levels ... *)
+Example C13_example_view :
+  match rise_rows ex_tables with
+  | Ok (ivs, rows) =>
+      (view_levels [(0%Z, 0); (40%Z, 1 # 2)] rows [0; 1; 2]%Z,
+       map (fun r => (Qred (fst r), Qred (snd r))) (view_average [(0%Z, 0); (40%Z, 1 # 2)] rows [0; 1; 2]%Z 1))
+  | Err _ => ([], [])
+  end = ([1; 2]%Z, [(1, 413 # 1600); (2, 439 # 1600)]).
+Proof. vm_compute. reflexivity. Qed.
+
+(** ... whereas over a grid that stops one level short (what truncating
+    max/step = 2.5 instead of taking its ceiling produces) the view silently
+    loses the top point: the hypothesis "stored levels are grid levels" is what
+    carries the statement. *)
+Example C13_example_view_truncated_grid :
+  match rise_rows ex_tables with
+  | Ok (ivs, rows) => (view_levels [(0%Z, 0); (40%Z, 1 # 2)] rows [-1; 0; 1]%Z, curve_levels [(0%Z, 0); (40%Z, 1 # 2)] rows)
+  | Err _ => ([], [])
+  end = ([1]%Z, [1; 2]%Z).
+Proof. vm_compute. reflexivity. Qed.
+
+(** The per-rise view rising_curve_line_segment (what `plot rise` draws) on the
+    tables of the model of [rise] ([tables_wl], [tables_rain]: the binary64
+    columns read as the rationals they denote): every interval given an offset
+    has a row, every row belongs to such an interval and carries its offset;
+    under the PRIMARY KEYs exactly one row each (C08_line_segments_only_main_body
+    is the statement for arbitrary tables). *)
+Theorem C13_rise_line_segments : forall t ivs rows (offsets : list (Z * Q)),
+  rise_rows t = Ok (ivs, rows) ->
+  (forall e, In e ivs <-> In e (map fst offsets)) ->
+  let V := view_line_segments (t_pairing t) (tables_zint t) (tables_wl t) (t_storm t) (tables_rain t) offsets in
+  (forall e o, In (e, o) offsets -> exists d zi zf, In (e, o, d, zi, zf) V) /\
+  (forall r, In r V -> In (seg_epoch r) ivs /\ In (seg_epoch r, seg_offset r) offsets) /\
+  (NoDup (map fst (t_pairing t)) -> NoDup (map fst (tables_zint t)) -> NoDup (map fst (tables_wl t)) ->
+   NoDup (map fst (t_storm t)) -> NoDup (map fst offsets) ->
+   Permutation.Permutation (map (fun r => (seg_epoch r, seg_offset r)) V) offsets).
+Proof. exact rise_line_segments. Qed.
+Print Assumptions C13_rise_line_segments.
+
+Example C13_example_line_segments :
+  map (fun r => match r with (e, o, d, zi, zf) => (e, Qred o, Qred d, Qred zi, Qred zf) end)
+      (view_line_segments (t_pairing ex_tables) (tables_zint ex_tables) (tables_wl ex_tables)
+                          (t_storm ex_tables) (tables_rain ex_tables) [(0%Z, 0); (40%Z, 1 # 2)])
+  = [(0%Z, 0, 1 # 40, 1 # 2, 5 # 2); (40%Z, 1 # 2, 1 # 20, 1 # 2, 3)].
+Proof. vm_compute. reflexivity. Qed.
